@@ -73,6 +73,36 @@ def generate(tier, seed, info):
         m = ";".join("%x:%s" % (a, isa.hexb(b)) for a, b in mem.items())
         lines.append("id=%x kind=step tag=%x pc=%x ccr=%x er=%s mem=%s ops=step" % (
             cid, tag, pc, rnd.randrange(256), ",".join("%x" % x for x in er), m))
+    # systematic second words of the prefix groups: every high byte x every bit-number / register nibble, operands in mapped
+    # memory with random contents, every CCR pattern class (a flag helper fed anything but 0/1 panics)
+    for pre_kind in ("7c", "7d", "7e", "7f", "0100", "0140", "01f0"):
+        for h in range(256):
+            for k in range(16):
+                if pre_kind in ("7c", "7d"):
+                    r_ = rnd.randrange(8)
+                    pre = int(pre_kind, 16) << 8 | (r_ << 4)
+                    w2 = (h << 8) | (k << 4)
+                elif pre_kind in ("7e", "7f"):
+                    r_ = None
+                    pre = int(pre_kind, 16) << 8 | rnd.choice([0x00, 0x10, 0x7f, 0xcf, 0xe9, 0xea, 0xff, rnd.randrange(256)])
+                    w2 = (h << 8) | (k << 4)
+                else:
+                    r_ = None
+                    pre = int(pre_kind, 16)
+                    w2 = (h << 8) | (k << 4) | rnd.randrange(16)
+                    if tier == "quick" and k % 4:
+                        continue
+                code = isa.w16(pre) + isa.w16(w2) + [rnd.randrange(256) for _ in range(6)]
+                pc = rnd.choice([0xffc000, 0x410000]) + 2 * rnd.randrange(16)
+                er = adv_regs(rnd)
+                mem = {pc: code}
+                if r_ is not None:
+                    er[r_] = rnd.choice([0xffd000, 0x450000, 0x20, 0xffff1f, 0xffbf20]) | (rnd.choice([0, 0xff]) << 24)
+                    mem[er[r_] & 0xffffff] = [rnd.choice([0xff, 0x00, 0xaa, 0x55, rnd.randrange(256)])]
+                cid += 1
+                m = ";".join("%x:%s" % (a, isa.hexb(b)) for a, b in mem.items())
+                lines.append("id=%x kind=step tag=%x pc=%x ccr=%x er=%s mem=%s ops=step" % (
+                    cid, tag, pc, rnd.choice([0xff, 0x80, 0x05, 0x01, 0x00, 0xfe, rnd.randrange(256)]), ",".join("%x" % x for x in er), m))
     # interrupt acceptance with adversarial stacks
     for _ in range(3000 if tier == "quick" else 40000):
         er = adv_regs(rnd)
